@@ -1163,7 +1163,8 @@ _R0 = "prod0 == 0 and not done0 and nq0 <= 1"
 def _turn_shards(tier):
     if tier == "quick":
         return [("ns == 1",), ("ns == 2", _R1, "not cb", "nq0 == 0"), ("ns == 2", _R1, "not cb", "nq0 == 1"),
-                ("ns == 2", _R1, "not cb", "nq0 == 2"), ("ns == 2", _R1, "cb")]
+                ("ns == 2", _R1, "not cb", "nq0 == 2", "done0"), ("ns == 2", _R1, "not cb", "nq0 == 2", "not done0"),
+                ("ns == 2", _R1, "cb")]
     return [("ns == 1",)] + [("ns == 2", "nq0 == %d" % a, "nq1 == %d" % b2) for a in range(3) for b2 in range(3)]
 
 
